@@ -4,9 +4,11 @@ import (
 	"fmt"
 	"go/token"
 	"go/types"
+	"sort"
 	"strings"
 
 	"golang.org/x/tools/go/ssa"
+	"golang.org/x/tools/go/ssa/ssautil"
 )
 
 func exprCalls(e Expr, out map[string]bool) {
@@ -77,11 +79,14 @@ func (eng *Engine) lemmaFormula(g *VCGen, l *Lemma, args []SpecVal) string {
 	}
 	pat := ""
 	if len(l.Pattern) > 0 {
-		var ps []string
-		for _, p := range l.Pattern {
-			ps = append(ps, env.tr(p.E).T)
+		env.noUnfold = true
+		for _, mp := range l.Pattern {
+			var ps []string
+			for _, p := range mp {
+				ps = append(ps, env.tr(p.E).T)
+			}
+			pat += " :pattern (" + strings.Join(ps, " ") + ")"
 		}
-		pat = " :pattern (" + strings.Join(ps, " ") + ")"
 		return fmt.Sprintf("(forall (%s) (! %s%s))", strings.Join(bs, " "), body, pat)
 	}
 	return fmt.Sprintf("(forall (%s) %s)", strings.Join(bs, " "), body)
@@ -133,11 +138,21 @@ func (eng *Engine) lemmaFacts(g *VCGen, pkg string, only map[string]bool) []stri
 func (eng *Engine) verifyLemma(l *Lemma) (res FuncResult) {
 	res.Func = "lemma " + l.Name
 	res.Contract = fmt.Sprintf("%s:%d", l.File, l.Line)
+	genMu.Lock()
 	g := newVCGen(eng, nil, nil)
 	g.so.special = eng.specialSortFor(g)
-	defer delete(eng.specInfos, g)
 	var obls []Obligation
+	var texts []string
 	func() {
+		defer genMu.Unlock()
+		defer delete(eng.specInfos, g)
+		defer func() {
+			if res.Error == "" {
+				for _, o := range obls {
+					texts = append(texts, eng.queryText(g, o, nil))
+				}
+			}
+		}()
 		defer func() {
 			if r := recover(); r != nil {
 				switch e := r.(type) {
@@ -238,9 +253,13 @@ func (eng *Engine) verifyLemma(l *Lemma) (res FuncResult) {
 	res.Obls = make([]OblResult, len(obls))
 	parallelDo(len(obls), 4, func(i int) {
 		o := obls[i]
-		text := eng.queryText(g, o, nil)
+		text := texts[i]
 		name := "lemma." + l.Name + "#" + o.Name
-		r := solve(eng.workDir, name, text, eng.timeoutS, nil)
+		to := eng.timeoutS
+		if o.Kind == "cover" {
+			to = 2
+		}
+		r := solve(eng.workDir, name, text, to, nil)
 		or := OblResult{Obligation: o, Status: r.status, Backend: r.backend, TimeS: r.timeS, Output: r.output, File: eng.workDir + "/" + sanitizeFile(name) + ".smt2"}
 		if o.Kind == "cover" {
 			if r.status == "unsat" {
@@ -262,6 +281,9 @@ func (eng *Engine) verifyLemma(l *Lemma) (res FuncResult) {
 func (g *VCGen) invoke(c *ssa.CallCommon, pos token.Pos, v *ssa.Call) []SpecVal {
 	fc := g.eng.ifaceContract(c)
 	if fc == nil {
+		if n, ok := c.Value.Type().(*types.Named); ok && n.Obj().Pkg() != nil && g.eng.contracts.ClosedIfaces[n.Obj().Pkg().Path()+"."+n.Obj().Name()] {
+			return g.closedInvoke(n, c, pos, v)
+		}
 		panic(unsupported(fmt.Sprintf("interface call %s.%s without interface contract", c.Value.Type(), c.Method.Name())))
 	}
 	recv := g.val(c.Value)
@@ -302,3 +324,175 @@ func (g *VCGen) globalFacts(st *State) {
 }
 
 var _ = ssa.NewConst
+
+// implementations of a closed interface: the concrete types that are ever converted to it
+// (MakeInterface instructions anywhere in the loaded program). Values of the interface can only originate there
+// (or from gob, which only produces the registered types, themselves converted in init).
+func (eng *Engine) implementations(n *types.Named) []types.Type {
+	key := qualTypeName(n)
+	if r, ok := eng.implCache[key]; ok {
+		return r
+	}
+	seen := map[string]types.Type{}
+	for fn := range ssautil.AllFunctions(eng.prog) {
+		for _, b := range fn.Blocks {
+			for _, in := range b.Instrs {
+				if mi, ok := in.(*ssa.MakeInterface); ok && types.Identical(mi.Type(), n) {
+					seen[qualTypeName(mi.X.Type())] = mi.X.Type()
+				}
+			}
+		}
+	}
+	var keys []string
+	for k := range seen {
+		keys = append(keys, k)
+	}
+	sort.Strings(keys)
+	var out []types.Type
+	for _, k := range keys {
+		out = append(out, seen[k])
+	}
+	eng.implCache[key] = out
+	return out
+}
+
+// closedInvoke: dynamic dispatch over all implementations of a closed (package-private) interface.
+// Each case is evaluated under its own guard (dynamic type tag) using the implementation's contract
+// (synthetic promotion wrappers are inlined). Implementations must not modify tracked state.
+func (g *VCGen) closedInvoke(n *types.Named, c *ssa.CallCommon, pos token.Pos, v *ssa.Call) []SpecVal {
+	recv := g.val(c.Value)
+	goal := fmt.Sprintf("(not (= (if.tag %s) 0))", recv.T)
+	g.oblige("nopanic.nilinvoke@"+c.Value.Name()+"."+c.Method.Name(), "nopanic", goal, "method call on nil interface", pos)
+	g.assumeHere(goal)
+	impls := g.eng.implementations(n)
+	g.usedTrusted["closed world: only types of package "+n.Obj().Pkg().Name()+" implement "+n.Obj().Name()+" (no external implementation exists in the repository); interface values hold non-nil pointers"] = true
+	sig := c.Method.Type().(*types.Signature)
+	var resTypes []types.Type
+	for i := 0; i < sig.Results().Len(); i++ {
+		resTypes = append(resTypes, sig.Results().At(i).Type())
+	}
+	args := g.argVals(c)
+	pc0 := g.pathCond
+	st0 := g.cur
+	var tagConds, okConds []string
+	var caseRes [][]SpecVal
+	for _, t := range impls {
+		tag := g.so.typeTag(t)
+		tc := fmt.Sprintf("(= (if.tag %s) %s)", recv.T, tag)
+		tagConds = append(tagConds, tc)
+		sel := g.eng.prog.MethodSets.MethodSet(t).Lookup(c.Method.Pkg(), c.Method.Name())
+		if sel == nil {
+			panic(unsupported("no method " + c.Method.Name() + " on " + t.String()))
+		}
+		fn := g.eng.prog.MethodValue(sel)
+		if fn == nil {
+			panic(unsupported("no SSA for method " + c.Method.Name() + " on " + t.String()))
+		}
+		g.pathCond = and(pc0, tc)
+		g.cur = st0.clone()
+		var rv SpecVal
+		ts := g.so.sortOf(t)
+		if ts == "Int" {
+			rv = SpecVal{fmt.Sprintf("(if.ref %s)", recv.T), "Int", t}
+			g.assumeHere(fmt.Sprintf("(> (if.ref %s) 0)", recv.T))
+		} else {
+			_, unbox := g.boxFns(ts)
+			rv = SpecVal{fmt.Sprintf("(%s (if.ref %s))", unbox, recv.T), ts, t}
+		}
+		res := g.callFunction(fn, append([]SpecVal{rv}, args...), pos, "invoke@"+c.Method.Name()+":"+shortTypeName(t))
+		for h, term := range g.cur.heaps {
+			if st0.heaps[h] != term && g.heapTerm(st0, h) != term {
+				panic(unsupported("implementation " + fn.String() + " of a closed interface modifies state"))
+			}
+		}
+		okConds = append(okConds, g.pathCond)
+		caseRes = append(caseRes, res)
+	}
+	g.cur = st0
+	// exhaustiveness
+	g.pathCond = pc0
+	g.assumeHere(or(tagConds...))
+	var results []SpecVal
+	for j, t := range resTypes {
+		s := g.so.sortOf(t)
+		name := g.freshConst("inv!r", s)
+		sv := SpecVal{name, s, t}
+		g.rangeFact(sv)
+		g.assumeHere(g.allocFact(name, t, g.cur))
+		for k := range impls {
+			if j < len(caseRes[k]) {
+				g.assume(implies(okConds[k], fmt.Sprintf("(= %s %s)", name, caseRes[k][j].T)))
+			}
+		}
+		results = append(results, sv)
+	}
+	g.pathCond = and(pc0, or(okConds...))
+	return results
+}
+
+// callFunction: call of a concrete function with already-evaluated arguments: by contract, or by inlining
+// (synthetic promotion wrappers and helpers declared 'inline').
+func (g *VCGen) callFunction(fn *ssa.Function, args []SpecVal, pos token.Pos, label string) []SpecVal {
+	if fc := g.eng.contractFor(fn); fc != nil {
+		names := sigParamNames(fn.Signature)
+		if len(fn.Params) == len(args) {
+			for i, p := range fn.Params {
+				names[i] = recvName(fn, i, p)
+			}
+		}
+		var resTypes []types.Type
+		var resNames []string
+		for i := 0; i < fn.Signature.Results().Len(); i++ {
+			resTypes = append(resTypes, fn.Signature.Results().At(i).Type())
+			resNames = append(resNames, fn.Signature.Results().At(i).Name())
+		}
+		g.usedCallees[fn.String()] = true
+		return g.applyContract(fc, g.eng.typesPkg(fc.Pkg), names, args, resTypes, resNames, pos, label)
+	}
+	if fn.Synthetic != "" || g.eng.isInline(fn) {
+		return g.inlineCall(fn, args, pos)
+	}
+	panic(unsupported(fmt.Sprintf("call to %s which has no contract", fn.String())))
+}
+
+func (eng *Engine) isInline(fn *ssa.Function) bool {
+	for _, k := range eng.contractKeys(fn) {
+		if eng.contracts.Inline[k] {
+			return true
+		}
+	}
+	return false
+}
+
+// inlineCall executes a single-block function body in the current path.
+func (g *VCGen) inlineCall(fn *ssa.Function, args []SpecVal, pos token.Pos) []SpecVal {
+	if len(fn.Blocks) != 1 {
+		panic(unsupported("cannot inline " + fn.String() + ": not straight-line code"))
+	}
+	g.inlineDepth++
+	defer func() { g.inlineDepth-- }()
+	if g.inlineDepth > 6 {
+		panic(unsupported("inlining too deep at " + fn.String()))
+	}
+	if len(args) != len(fn.Params) {
+		panic(unsupported("inline arity mismatch for " + fn.String()))
+	}
+	for i, p := range fn.Params {
+		g.vals[p] = SpecVal{args[i].T, g.so.sortOf(p.Type()), p.Type()}
+	}
+	for _, in := range fn.Blocks[0].Instrs {
+		switch x := in.(type) {
+		case *ssa.Return:
+			var out []SpecVal
+			for _, r := range x.Results {
+				out = append(out, g.val(r))
+			}
+			return out
+		case *ssa.Phi, *ssa.If, *ssa.Jump:
+			panic(unsupported("cannot inline " + fn.String()))
+		default:
+			g.instr(in)
+		}
+	}
+	return nil
+}
